@@ -194,11 +194,14 @@ func VerifC14EncryptStreams(raw []byte, password string) ([]byte, []byte, error)
 // VerifC14ExtractStreams returns the EncryptionInfo and EncryptedPackage
 // streams of a compound file the way Decrypt reads them.
 func VerifC14ExtractStreams(raw []byte) (info, pkg []byte, err error) {
+	if err = checkCompoundFileHeader(raw); err != nil {
+		return nil, nil, err
+	}
 	doc, err := mscfb.New(bytes.NewReader(raw))
 	if err != nil {
 		return nil, nil, err
 	}
-	info, pkg = extractPart(doc)
+	info, pkg = extractPartLimit(doc, int64(len(raw)))
 	return info, pkg, nil
 }
 
